@@ -143,7 +143,7 @@ REG.contract('Task.do_work',
     locals_types={'total_duration': 'num'},
     requires=dw_requires,
     yields={0: dw_y0,
-            1: lambda c: dw_common(c, c.n) + [('substep', c.n['total_duration'].t < 1), ('waits-one', c.n['_ydelay'].t == 1)],
+            1: lambda c: dw_common(c, c.n) + [('substep', c.n['total_duration'].t < 1), ('waits-zero', c.n['_ydelay'].t == 0)],
             2: lambda c: dw_common(c, c.n) + [('normal', c.n['total_duration'].t >= 1),
                                               ('waits-duration-minus-one', c.n['_ydelay'].t == c.n['total_duration'].t - 1)]},
     ensures=dw_ensures, step=dw_step,
